@@ -11,8 +11,10 @@ cargo test --workspace --no-fail-fast --offline >"out/verify$k-suite.log" 2>&1; 
 npass=$(grep -E "^test result: ok" "out/verify$k-suite.log" | grep -o "[0-9]* passed" | awk '{s+=$1} END{print s}')
 cargo build -p ruzstd --offline --features "std,hash,dict_builder,verif_hooks" >/dev/null 2>&1; b1=$?
 cargo build -p ruzstd --offline --no-default-features >/dev/null 2>&1; b2=$?
+mkdir -p ruzstd/tests cli/tests
 sh "out/demo$k/run.sh" >"out/verify$k-demo-with.log" 2>&1; with=$?
 git checkout -q -- .; rm -rf ruzstd/tests cli/tests
+mkdir -p ruzstd/tests cli/tests
 sh "out/demo$k/run.sh" >"out/verify$k-demo-without.log" 2>&1; without=$?
 git checkout -q -- .; rm -rf ruzstd/tests cli/tests
 ok=no; [ $suite -eq 0 ] && [ $b1 -eq 0 ] && [ $b2 -eq 0 ] && [ $with -ne 0 ] && [ $without -eq 0 ] && ok=yes
